@@ -39,6 +39,7 @@ var restFixed = []string{
 	`std | (defn vt [n & r] (cond (== n 0) (len r) (vt (- n 1) 1 2 3 4 5 6))) @@ (vt 3) @@ (vt 2 9 9 9 9 9 9 9)`,
 	`std | (def n 0) @@ (for [(def i 0) (< i 3) (set i (+ i 1))] (let [x 1] (cond (begin (set n (+ n 1)) (continue)) 1 2))) @@ n`,
 	`std | (for [(def i 0) (< i 3) (set i (+ i 1))] (let [x 1] (cond (break) 1 2)))`,
+	`std | (def g nil) @@ (for [(def i 0) (< i 2) (set i (+ i 1))] (set g (fn [] (cond true (break) 1)))) ;; (g) ;; 5`,
 	`std | (for [(def i 0) (< i 2) (set i (+ i 1))] (package "p" (def X 1) (continue)))`,
 	`std | (for [(def i 0) (< i 3) (set i (+ i 1))] (let [x 1] (newScope [1 2 (cond (== i 1) (continue) 3)] ^(1 ~(cond (== i 2) (break) 2)))))`,
 	`std | (defn cnt [n acc] (cond (== n 0) acc (cnt (- n 1) (+ acc 1)))) @@ (cnt 50 0)`,
